@@ -1,6 +1,7 @@
 ---------------------------- MODULE LiteralTrace ----------------------------
 (* {"e":"lit","kind":k,"src":[cps],"accepted":bool,"out":[cps]}  - accepted: the frontend reported no error for
-   `Schreibe <literal>.`; out: what the compiled program printed (empty when not accepted)                          *)
+   `Schreibe <literal>.`; out: what the compiled program printed (empty when not accepted)
+   {"e":"ctx","kind":k,"src":[cps],"ctx":position,"accepted":bool}  - the literal in another position                *)
 EXTENDS Literals, TLC, Json
 CONSTANTS TraceFile, DecSep
 VARIABLES l, bad, nunspec
@@ -12,7 +13,15 @@ Lit == /\ Trace[l].e = "lit"
               good == ~d.spec \/ (ev.accepted = d.ok /\ (d.ok => ev.out = d.out))
           IN  /\ bad' = IF good THEN bad ELSE bad \cup {l}
               /\ nunspec' = nunspec + (IF d.spec THEN 0 ELSE 1)
-Next == l <= Len(Trace) /\ l' = l + 1 /\ Lit
+\* the same literal in another syntactic position (repetition count, loop bound, index, default value, ...): a literal that denotes
+\* no value is rejected wherever it stands
+Ctx == /\ Trace[l].e = "ctx"
+       /\ LET ev == Trace[l]
+              d == Denote(ev.kind, ev.src, DecSep)
+              good == ~d.spec \/ d.ok \/ ~ev.accepted
+          IN  /\ bad' = IF good THEN bad ELSE bad \cup {l}
+              /\ nunspec' = nunspec + (IF d.spec THEN 0 ELSE 1)
+Next == l <= Len(Trace) /\ l' = l + 1 /\ (Lit \/ Ctx)
 Spec == Init /\ [][Next]_<<l, bad, nunspec>>
 Done == l = Len(Trace) + 1
 Report == Done => PrintT(<<"@@bad@@", bad>>) /\ PrintT(<<"@@unspec@@", nunspec>>) /\ PrintT(<<"@@lines@@", Len(Trace)>>)
